@@ -25,6 +25,7 @@ def run(ctx):
     fb = ctx.fb()
     from_candidates(ctx, fb)
     seeded(ctx, fb)
+    nonzero(ctx, fb)
 
 
 def value_terminals(fb, f, op, depth=14, _seen=None):
@@ -244,3 +245,59 @@ def seeded(ctx, fb):
         if not re.search(r'Multinomial::(new|with_seed)$|Multinomial as core::(default::Default|clone::Clone)>', f.path):
             bad.append(f.path)
     ctx.inst(R, 'constructed-only-by-constructors', not bad and n_agg >= 2, 'Multinomial values are built only in new / with_seed / derived Default and Clone' if not bad else 'Multinomial is constructed in %s' % bad[0], '')
+
+
+
+def nonzero(ctx, fb):
+    """'multinomial sampling returns only IDs ... with non-zero probability': in the helper that turns the random target into
+    an index, every `Some(index)` it can return or remember is built under a `prob > 0` test of the probability read in the
+    same iteration; the caller uses a fallback index only on the None result (no candidate with prob > 0, i.e. NaN input)."""
+    R = 'C33.nonzero'
+    f = fb.fn('rten_generate::sampler::multinomial')
+    if not ctx.anchor(R, 'sampler::multinomial', f is not None and f.has_mir()):
+        return
+    n, bad = 0, []
+
+    def guarded(bb):
+        for (op, a, b2, g) in normalized_cmps(f, bb):
+            if op == 'Gt' and b2[0] == 'k' and re.match(r'^0(\.0*)?(f32|f64)?$', str(b2[1])):
+                # the compared value is an element of the probabilities (read through the iterator), not the target
+                if any(o[0] == 'call' and re.search(r'Iterator>?::next$', o[1] or '') for o in f.origins(a)):
+                    return True
+        return False
+
+    # every value that can reach the return place: Some(..) under the test, None, or a copy of such a local
+    seen, work = set(), [0]
+    while work:
+        l = work.pop()
+        if l in seen:
+            continue
+        seen.add(l)
+        for (bb, j2, kind, payload, pl) in f.defs().get(l, []):
+            if kind == 'call':
+                bad.append('result of %s' % (payload.callee or '?').split('::')[-1])
+                continue
+            rv = payload
+            if rv[0] == 'agg' and rv[3] == 'Some':
+                n += 1
+                if not guarded(bb):
+                    bad.append('Some(..) at line %s' % f.loc().split(':')[0])
+            elif rv[0] == 'agg' and rv[3] == 'None':
+                pass
+            elif rv[0] == 'use' and op_local(rv[1]) is not None:
+                work.append(op_local(rv[1]))
+            elif rv[0] == 'use' and rv[1][0] == 'k':
+                if 'None' not in str(rv[1][1]):
+                    bad.append('constant %s' % rv[1][1])
+            else:
+                bad.append('computed value (%s)' % rv[0])
+    ctx.inst(R, 'index-only-under-positive-probability', n >= 1 and not bad,
+             'every Some(index) (%d) is built under `prob > 0` for the probability of that index' % n if not bad else
+             'an index can be returned without a `prob > 0` test of its probability (%s): a masked (-inf logit, probability 0) candidate can be selected when rounding leaves the cumulative sum below the target' % '; '.join(bad[:3]), f.loc())
+    # caller: fallback index only through unwrap_or on the helper's Option
+    s = [x for x in fb.fns(crate=CRATE) if x.path.endswith('Multinomial as rten_generate::sampler::Sampler>::sample') and x.has_mir()]
+    if ctx.anchor(R, 'Multinomial::sample', len(s) == 1):
+        g = s[0]
+        uo = [c for c in g.calls() if re.search(r'Option::<T>::unwrap_or(_default|_else)?$', c.callee or '')]
+        ok = len(uo) == 1 and g.resolve_copy(uo[0].args[0])[0] == 'call' and (g.resolve_copy(uo[0].args[0])[1].callee or '').endswith('sampler::multinomial')
+        ctx.inst(R, 'index-from-helper', ok, 'the index into Logits::indices() is multinomial(..).unwrap_or(fallback): the fallback is used only when no candidate has a positive probability', g.loc())
